@@ -9,6 +9,9 @@ from props import cache_e2e, cacheunit
 
 
 def run(ses):
+    from pyvc import frame as _frame
+
+    _frame.purity_obligation(ses)
     cacheunit.obligations(ses, "C10")
     cacheunit.options_obligations(ses, "C10")
     cache_e2e.histories(ses, "C10")
